@@ -1,7 +1,11 @@
 (* C10 driver: one case per line on stdin, one result line on stdout, same format as the harness.
      seq <de> <k> <ivhex> {<i|d> <srchex> <dsthex>}*   -> seq {<dsthex>:<ivhex>:<ivPos> | panic}*
      ref <de> <k> <ivhex> <msghex>                     -> ref <outhex>
-     blk <k> <hex>                                     -> blk <hex>                                   *)
+     blk <k> <hex>                                     -> blk <hex>
+     mem <de> <k> <strict> <bs> <ivhex> {<imagehex> <doff> <dlen> <soff> <slen>}*
+                                                       -> mem {<imagehex>:<ivhex>:<ivPos> | panic | unspec | other}*
+       (the INTERPRETED TRANSLATION of net/CFB8/cfb8.go, Model/C10_interp.v: dst = image[doff:doff+dlen],
+        src = image[soff:soff+slen] in one memory image per call, any overlap)                       *)
 let rec int_of_nat = function O -> 0 | S n -> 1 + int_of_nat n
 
 let rec calls_of = function
@@ -10,6 +14,13 @@ let rec calls_of = function
       { c_alias = (if a = "i" then InPlace else Disjoint); c_src = bytes_of_hex s; c_dst = bytes_of_hex d }
       :: calls_of rest
   | _ -> failwith "bad call list"
+
+let rec mcalls_of = function
+  | [] -> []
+  | img :: doff :: dlen :: soff :: slen :: rest ->
+      { m_bytes = bytes_of_hex img; m_doff = z_of_int (int_of_string doff); m_dlen = z_of_int (int_of_string dlen);
+        m_soff = z_of_int (int_of_string soff); m_slen = z_of_int (int_of_string slen) } :: mcalls_of rest
+  | _ -> failwith "bad mem call list"
 
 let () = iter_lines (fun line ->
   match split_ws line with
@@ -27,4 +38,15 @@ let () = iter_lines (fun line ->
         (hex_of_bytes (toy_ref (n_of_int (int_of_string k)) (de = "1") (bytes_of_hex ivh) (bytes_of_hex m)))
   | ["blk"; k; h] ->
       Printf.printf "blk %s\n" (hex_of_bytes (toyE (n_of_int (int_of_string k)) (bytes_of_hex h)))
+  | "mem" :: de :: k :: strict :: bsz :: ivh :: rest ->
+      let tr = toy_interp_trace (n_of_int (int_of_string k)) (strict = "1") (de = "1") (z_of_int (int_of_string bsz))
+                 (bytes_of_hex ivh) (mcalls_of rest) in
+      let b = Buffer.create 256 in
+      Buffer.add_string b "mem";
+      List.iter (function
+        | MOk (img, ivb, p) -> Buffer.add_string b (Printf.sprintf " %s:%s:%d" (hex_of_bytes img) (hex_of_bytes ivb) (int_of_z p))
+        | MPanic -> Buffer.add_string b " panic"
+        | MUnspec -> Buffer.add_string b " unspec"
+        | MOther -> Buffer.add_string b " other") tr;
+      print_endline (Buffer.contents b)
   | _ -> Printf.printf "?? %s\n" line)
